@@ -309,6 +309,20 @@ fn main() {
         }
         t
     });
+    // S5b: the word-level part of the library (word limits 2^e + d, floor(2^e/10^k) + d, 2^n - 1, 2^n, 2^n + 1) at
+    // EVERY precision 1..=40: two algorithms that are each within one unit need not round alike, so the
+    // sign-symmetry clause is exercised at every precision on both sides of every word limit
+    let wl5 = structured_ints(1, 0, run.seed());
+    let s5bp: Vec<u64> = tier.pick((1..=40).collect(), (1..=101).collect());
+    run.bound("S5b_word_level_integers", wl5.len());
+    run.bound("S5b_precisions", format!("1..={}", s5bp.len()));
+    run.par_opts("S5b word-level operands x every precision", wl5.len(), 60, &|i| json!({"x": wl5[i].to_string()}), |i| {
+        let mut t = Tally::default();
+        for x in structured_decimals(&wl5[i..=i], &[0, 5], &[0]) {
+            sweep(&run, &x, &s5bp, &mut t);
+        }
+        t
+    });
     let _ = BigInt::zero();
     run.finish();
 }
